@@ -1918,3 +1918,118 @@ def antimeridian_symmetry_rule(repo, rep):
                          'about the false easting with equal northings: something other than the sine / cosine of lon - cm (here %s degrees) enters the result'
                          % (float(lat), float(lon_far), zone, a[0], a[1], float(lon_near), b[0], b[1], float(lon_far) - (-183 + 6 * zone)),
                          expected='E = %.4f' % (1000000 - b[0]), actual='E = %.4f' % a[0])
+
+
+_LATE_EXAMPLES = '''
+def table(pairs):
+    return {k: (lambda v: getattr(v, name)()) for k, name in pairs}
+
+def handler(args):
+    kind = args['from']
+    vals = (conv[kind](args[k]) for k in ('a', 'b'))
+    kind = args['to']
+    return run(*vals)
+'''
+
+
+def _late_bindings(scope_node):
+    """late-binding hazards inside one function (or module) body:
+    (a) a lambda / nested def created inside a loop or comprehension that reads the loop variable as a FREE variable (not through a default
+        argument): every closure sees the value of the LAST iteration;
+    (b) a generator expression bound to a name whose element expression reads a local that is re-bound before the generator is consumed
+        (only the outermost iterable of a generator expression is evaluated when it is created).
+    -> [(kind, node, variable name, detail)]"""
+    out = []
+
+    def free_names(fn):
+        if isinstance(fn, ast.Lambda):
+            params = set(a.arg for a in fn.args.args + fn.args.kwonlyargs) | ({fn.args.vararg.arg} if fn.args.vararg else set()) | ({fn.args.kwarg.arg} if fn.args.kwarg else set())
+            body_nodes = list(ast.walk(fn.body))
+        else:
+            params = set(a.arg for a in fn.args.args + fn.args.kwonlyargs)
+            body_nodes = [x for st in fn.body for x in ast.walk(st)]
+        assigned = set(x.id for x in body_nodes if isinstance(x, ast.Name) and isinstance(x.ctx, ast.Store))
+        return set(x.id for x in body_nodes if isinstance(x, ast.Name) and isinstance(x.ctx, ast.Load)) - params - assigned
+
+    # (a)
+    for n in ast.walk(scope_node):
+        loopvars = set()
+        bodies = []
+        if isinstance(n, (ast.ListComp, ast.SetComp, ast.GeneratorExp)):
+            bodies = [n.elt]
+        elif isinstance(n, ast.DictComp):
+            bodies = [n.key, n.value]
+        elif isinstance(n, ast.For):
+            bodies = list(n.body)
+        if not bodies:
+            continue
+        gens = n.generators if not isinstance(n, ast.For) else []
+        targets = [g.target for g in gens] if gens else [n.target]
+        for t in targets:
+            loopvars |= set(x.id for x in ast.walk(t) if isinstance(x, ast.Name))
+        for b in bodies:
+            for fn in ast.walk(b):
+                if isinstance(fn, (ast.Lambda, ast.FunctionDef)):
+                    hit = sorted(free_names(fn) & loopvars)
+                    # called on the spot (an immediately applied lambda) is no hazard; neither is a key= function consumed inside the iteration
+                    parent_call = any(isinstance(c, ast.Call) and (c.func is fn or any(k.value is fn for k in c.keywords) or any(a is fn for a in c.args)) for c in ast.walk(b))
+                    if hit and not parent_call:
+                        out.append(('closure', fn, hit[0], 'created once per iteration, reads the loop variable when CALLED'))
+    # (b)
+    body = scope_node.body if hasattr(scope_node, 'body') and isinstance(scope_node.body, list) else []
+    flat = []
+    for st in body:
+        flat.append(st)
+    for i, st in enumerate(flat):
+        if isinstance(st, ast.Assign) and len(st.targets) == 1 and isinstance(st.targets[0], ast.Name) and isinstance(st.value, ast.GeneratorExp):
+            g = st.value
+            own = set(x.id for gen in g.generators for x in ast.walk(gen.target) if isinstance(x, ast.Name))
+            inner = [g.elt] + [c for gen in g.generators for c in gen.ifs] + [gen.iter for gen in g.generators[1:]]
+            reads = set(x.id for e in inner for x in ast.walk(e) if isinstance(x, ast.Name) and isinstance(x.ctx, ast.Load)) - own
+            gname = st.targets[0].id
+            for j in range(i + 1, len(flat)):
+                later = flat[j]
+                uses = any(isinstance(x, ast.Name) and x.id == gname and isinstance(x.ctx, ast.Load) for x in ast.walk(later))
+                rebinds = sorted(set(x.id for x in ast.walk(later) if isinstance(x, ast.Name) and isinstance(x.ctx, ast.Store)) & reads)
+                if rebinds and any(any(isinstance(x, ast.Name) and x.id == gname and isinstance(x.ctx, ast.Load) for x in ast.walk(l2)) for l2 in flat[j:] if l2 is not later or not uses):
+                    out.append(('generator', st, rebinds[0], 're-bound at line %d before the generator is consumed' % later.lineno))
+                    break
+                if uses:
+                    break
+    return out
+
+
+def late_binding_rule(repo, rep, modnames):
+    """closures and generator expressions read their free variables when they RUN, not when they are written: a table of lambdas built in a
+    comprehension calls the LAST entry's method for every key; a lazily converted tuple of inputs is converted with whatever a re-used local
+    holds by then.  One instance per function (and one per module body) of the listed modules; the detector must fire on its built-in
+    examples on every run."""
+    ex = ast.parse(_LATE_EXAMPLES)
+    got = [k for fn in ex.body for k, _, _, _ in _late_bindings(fn)]
+    if sorted(got) != ['closure', 'generator']:
+        raise AnalysisError('late-binding detector does not fire on its built-in examples: %s' % got)
+    for mn in modnames:
+        m = repo.module(mn)
+        scopes = [(f.qualname, f.node, f) for f in m.all_functions()] + [('<module>', m.tree, None)]
+        for q, node, f in scopes:
+            key = 'R-STATE::%s::%s::late-binding' % (m.relpath, q)
+            if f is None:
+                # module level: only the statements outside function and class bodies
+                class _M(object):
+                    pass
+                top = ast.Module(body=[st for st in node.body if not isinstance(st, (ast.FunctionDef, ast.ClassDef))], type_ignores=[])
+                hits = _late_bindings(top)
+            else:
+                hits = _late_bindings(node)
+            wh = (lambda nd: where(f, nd)) if f is not None else (lambda nd: '%s:%d' % (m.relpath, getattr(nd, 'lineno', 1)))
+            if hits:
+                kind, nd, var, detail = hits[0]
+                if kind == 'closure':
+                    rep.violated('R-STATE', key, wh(nd), '`%s` reads the loop variable `%s` as a free variable: it is looked up when the closure is CALLED, after the loop - every entry '
+                                 'built this way behaves like the last one (a dispatch table whose every notation calls the last conversion)' % (stmt_text(nd)[:60], var),
+                                 expected='bind it per iteration (lambda x, %s=%s: ...)' % (var, var), actual=stmt_text(nd)[:100])
+                else:
+                    rep.violated('R-STATE', key, wh(nd), '`%s` is a generator expression: its element expression reads `%s` when the generator is CONSUMED, and `%s` is %s - the values are '
+                                 'computed with the later binding' % (stmt_text(nd)[:70], var, var, detail), expected='a list / tuple built on the spot', actual=stmt_text(nd)[:100])
+            else:
+                rep.holds('R-STATE', key, wh(node) if f is not None else '%s:1' % m.relpath, 'no closure or lazy generator reads a variable that changes before it runs', work=False)
